@@ -70,6 +70,7 @@ type Spec struct {
 	Tapes    [][]Entry `json:"tapes,omitempty"`
 	Verbose  bool      `json:"verbose"`
 	KeepTape bool      `json:"keep_tape"`
+	MaxRuns  int       `json:"max_runs"`
 }
 
 type propCfg struct {
@@ -700,18 +701,33 @@ func runCheck(prop string, cfg *propCfg, tier string, seed uint64, runsOverride 
 		wg.Add(1)
 		go func(k int) {
 			defer wg.Done()
-			sp := Spec{Property: prop, Seed: seed, Tier: tier, Lo: k, Hi: total, Stride: W, BudgetS: budget}
-			to := 20 * time.Minute
-			if budget > 0 {
-				to = time.Duration(budget*float64(time.Second)) + 10*time.Minute
+			// a slot runs its index sequence k, k+W, ... in successive worker processes of bounded lifetime
+			lo := k
+			for lo < total {
+				left := 0.0
+				if budget > 0 {
+					left = budget - (time.Since(start).Seconds() - buildS)
+					if left <= 1 {
+						break
+					}
+				}
+				sp := Spec{Property: prop, Seed: seed, Tier: tier, Lo: lo, Hi: total, Stride: W, BudgetS: left, MaxRuns: 4000}
+				to := 20 * time.Minute
+				if budget > 0 {
+					to = time.Duration(left*float64(time.Second)) + 10*time.Minute
+				}
+				res, err := b.runWorker(sp, 0, to)
+				mu.Lock()
+				all = append(all, res...)
+				if err != nil {
+					werrs = append(werrs, err.Error())
+				}
+				mu.Unlock()
+				if err != nil || len(res) == 0 {
+					break
+				}
+				lo = res[len(res)-1].Idx + W
 			}
-			res, err := b.runWorker(sp, 0, to)
-			mu.Lock()
-			all = append(all, res...)
-			if err != nil {
-				werrs = append(werrs, err.Error())
-			}
-			mu.Unlock()
 		}(k)
 	}
 	wg.Wait()
